@@ -453,6 +453,16 @@ func (v *PacketDslVisitorImpl) VisitInerObjectField(ctx *gen.InerObjectFieldCont
 		Line:   ctx.GetStart().GetLine(),
 		Column: ctx.GetStart().GetTokenSource().GetCharPositionInLine(),
 	}
+	// generators look match keys up through FieldMap / MatchFields, exactly as for a top-level packet
+	for _, f := range subFields {
+		if mf, ok := f.Attr.(*model.MatchFieldAttribute); ok {
+			if p.MatchFields == nil {
+				p.FieldMap = subFieldMap
+				p.MatchFields = make(map[string][]model.MatchPair)
+			}
+			p.MatchFields[mf.MatchKeyField.Name] = mf.MatchPairs
+		}
+	}
 	return &model.Field{
 		Name:     name,
 		IsRepeat: ctx.REPEAT() != nil,
